@@ -61,7 +61,7 @@ pub fn run(group: &str, seed: u64) -> i32 {
         "curve_group" => curve::group_law(&mut t),
         "curve_scalar" => curve::scalar_mul(&mut t, seed),
         "curve_msm" => curve::msm(&mut t, seed),
-        "curve_ser" => curve::serialization(&mut t),
+        "curve_ser" => { curve::serialization(&mut t); pairing::target_serialization(&mut t, seed); },
         "ser_impls" => ser::ser_impls(&mut t, seed),
         "toy_pairing" => pairing::toy_pairings(&mut t),
         "bigint" => {
